@@ -491,7 +491,11 @@ def inherited_values(b):
             kind = "property"
         elif inspect.isfunction(v):
             kind = "method"
-        out[n] = (900 + k, cid, bool(v) if kind == "plain" else True, v, kind)
+        oid = 900 + k
+        for po, pv in b.pool.items():       # True/False/0/'' are singletons: one identity, one id
+            if pv is v:
+                oid = po
+        out[n] = (oid, cid, bool(v) if kind == "plain" else True, v, kind)
         k += 1
     return out
 
@@ -619,7 +623,7 @@ def oracle(spec, res):
         f = faults[0]
         v.append(("started-with-%s-dependency" % f[3], "startup succeeded although %s request %s.%s is %s" % (f[0], f[1], f[2], f[3])))
         return v
-    b = res["b"]
+    b = types.SimpleNamespace(spec=spec)
     order = res["order"]
     if order != [c[0] for c in an["comps"]]:
         v.append(("component-order", "components created as %r, declared %r" % (order, [c[0] for c in an["comps"]])))
@@ -790,6 +794,8 @@ FALSY = ("zero", "empty", "elist", "etuple", "false", "float", "edict")
 OK_REL = ["name"] * 8 + ["prefix"] * 4 + ["both"] * 3 + ["none_prefix"] * 2 + ["subclass"] * 3 + ["falsy"] * 4 + [
     "preset_class", "preset_init", "preset_none", "private", "alias_ok", "alias_ok", "compref", "compref",
     "compref", "compref", "logger", "inherited", "fwd", "object"]
+CTOR_REL = ["name"] * 6 + ["prefix"] * 3 + ["both", "none_prefix", "subclass", "falsy", "falsy", "alias_ok", "object",
+                                            "fwd", "inherited"]
 BAD_REL = ["absent", "absent", "wrongtype", "wrongtype", "alias_wrong", "optional", "union", "lit", "compref_wrong",
            "method", "property", "none_only"]
 
@@ -867,7 +873,7 @@ class Gen:
         """one annotated attribute of a component/mode called cname: (name, form, preset|None)"""
         r = self.r
         bad = self.want_bad()
-        rel = r.choice(BAD_REL) if bad else r.choice(OK_REL)
+        rel = r.choice(BAD_REL) if bad else r.choice(CTOR_REL if ctor else OK_REL)
         if self.forced:
             rel = self.forced.pop()
         if r.random() < 0.9:      # mostly keep attribute names apart from component names
@@ -934,12 +940,12 @@ class Gen:
             form = {"optional": ["optional", 20], "union": ["union", 20], "lit": ["lit"]}[rel]
         elif rel in ("compref", "compref_wrong"):
             if self.comp_names:
-                a = r.choice(self.comp_names)
+                a = r.choice([n for n in self.comp_names if n != cname] or self.comp_names)
                 k = self.comp_class_of[a]
                 if rel == "compref":
                     form = ["cls", r.choice([comp_cid(k), comp_cid(k), 0] + ([comp_base_cid(k)] if self.comps[k]["base"] else []))]
                 else:
-                    form = ["cls", r.choice([20, 1, comp_cid((k + 1) % 8)])]
+                    form = ["cls", r.choice([20, 1] + [comp_cid(j) for j in range(len(self.comps)) if j != k])]
             else:
                 e = self.attr(a, self.fresh)
                 form = self.form_of_entry(e, a, cname)
@@ -987,6 +993,9 @@ class Gen:
             self.comp_names.append(n)
             self.comp_class_of[n] = k
             users.setdefault(k, []).append(n)
+        comp_rh = [[n, "base" if (self.rbase and r.random() < 0.4) else "class", ["comp", self.comp_class_of[n]]]
+                   for n in names]
+        decl = [n for n, _, _ in robot_hints({"rhints": comp_rh, "rbase": self.rbase})]
         for k, cc in enumerate(self.comps):
             cname = users[k][0]
             seen, pres = {}, {}
@@ -1003,7 +1012,8 @@ class Gen:
                 cc["init"] = []
                 used = set()
                 for _ in range(r.choice([1, 1, 2, 3])):
-                    others = [n for n in self.comp_names if n not in users[k]]
+                    first = min(decl.index(u) for u in users[k])
+                    others = [n for n in decl[:first]] if r.random() < 0.9 else [n for n in decl if n not in users[k]]
                     if others and r.random() < 0.45:
                         p = r.choice(others)
                         kk = self.comp_class_of[p]
@@ -1011,7 +1021,7 @@ class Gen:
                     elif self.want_bad() and r.random() < 0.3:
                         p, form = "_p", ["cls", 0]
                     else:
-                        p, form, _ = self.hint(cname, ATTR_NAMES)
+                        p, form, _ = self.hint(cname, ATTR_NAMES, ctor=True)
                         if p == "logger" or p.startswith("_"):
                             continue
                     if p in used:
@@ -1045,9 +1055,7 @@ class Gen:
         for _ in range(r.choice([0, 1, 2])):
             n = r.choice(ATTR_NAMES + ["_p", "%s_%s" % (r.choice(COMP_NAMES), r.choice(ATTR_NAMES))])
             self.attr(n, lambda: self.fresh(r.random() < 0.3))
-        rh = []
-        for n in names:
-            rh.append([n, "base" if (self.rbase and r.random() < 0.4) else "class", ["comp", self.comp_class_of[n]]])
+        rh = list(comp_rh)
         for n, e in list(self.rattrs.items()):
             if e[0] != "create" and e[1] == "plain" and e[2] is not None and r.random() < 0.15 and not n.startswith("_"):
                 rh.append([n, e[0], ["cls", self.cls_of(e[2])] if r.random() < 0.7 else ["nontype", r.choice([["lit"], ["alias", "list[int]"]])]])
@@ -1055,7 +1063,11 @@ class Gen:
             rh.append(["_hidden", "class", ["comp", 0]])
         if self.want_bad() and r.random() < 0.3:
             rh.append(["zz", "class", ["nontype", ["alias", "list[int]"]]])
-        r.shuffle(rh)
+        # the other annotations go to random places; the components keep their relative order
+        extra_rh = rh[len(comp_rh):]
+        rh = rh[:len(comp_rh)]
+        for h in extra_rh:
+            rh.insert(r.randint(0, len(rh)), h)
         seen = set()
         rh = [h for h in rh if not (h[0] in seen or seen.add(h[0]))]
         return {"data_classes": self.data, "pool": self.pool,
@@ -1064,9 +1076,72 @@ class Gen:
                 "comps": self.comps, "modes": modes, "path": "init" if r.random() < 0.3 else "create"}
 
 
+INH_STATIC = {"control_loop_wait_time": [900, 4, True, "plain", False],
+              "use_teleop_in_autonomous": [901, 7, False, "plain", False],
+              "error_report_interval": [902, 4, True, "plain", False],
+              "logger": [903, 9, True, "plain", False]}
+
+
+def repair(spec, keep, rng):
+    """Make the definition well-formed except for its first `keep` faults: serve
+    an absent request with a '<component>_<name>' robot attribute of the right
+    type, weaken a mistyped or non-type annotation to `object`, drop what cannot
+    be served.  (Generator only; the oracle and the model never see this.)"""
+    for _ in range(40):
+        faults = analyse(spec, INH_STATIC)["faults"][keep:]
+        if not faults:
+            return spec
+        where, c, a, kind, _ = faults[0]
+        if where == "robot":
+            spec["rhints"] = [h for h in spec["rhints"] if h[0] != a]
+            continue
+        holder, key = None, None
+        for n, _, form in spec["rhints"]:
+            if n == c and form[0] == "comp":
+                holder, key = spec["comps"][form[1]], ("init" if where == "ctor" else "hints")
+        if holder is None:
+            for md in spec["modes"]:
+                if md["name"] == c:
+                    holder, key = md, "hints"
+        if holder is None:
+            return spec
+        ents = [e for e in holder[key] if e[0] == a]
+        if not ents:
+            return spec
+        e = ents[-1]
+        form = e[-1]
+        ft = form_type(form)
+        pa = "%s_%s" % (c, a)
+        have = {x[0] for x in spec["rattrs"]}
+        cid = ft[1] if ft[0] == "type" else None
+        makeable = cid is not None and (cid in (0, 1, 2, 3, 5, 6, 7, 8) or 20 <= cid < 100)
+        if kind == "absent" and makeable and pa not in have and rng.random() < 0.7:
+            oid = len(spec["pool"]) + 1
+            kindo = {0: "inst", 1: "int", 2: "str", 3: "list", 5: "edict", 6: "etuple", 7: "true", 8: "list"}.get(cid, "inst")
+            if kindo in SINGLETONS and any(x[1] == kindo for x in spec["pool"]):
+                oid = [x[0] for x in spec["pool"] if x[1] == kindo][0]
+            else:
+                spec["pool"].append([oid, kindo, cid if kindo == "inst" and cid >= 20 else (20 if kindo == "inst" else 0)])
+            spec["rattrs"].append([pa, rng.choice(["class", "create"]), "plain", oid])
+            spec["rattrs"].sort()
+        elif kind in ("mistyped", "nontype") and form != ["cls", 0]:
+            e[-1] = ["cls", 0]
+        else:
+            holder[key] = [x for x in holder[key] if x is not e]
+            if key == "init":
+                holder["presets"] = [x for x in holder["presets"] if not (isinstance(x[2], list) and x[2][1] == a)]
+                if not holder["init"]:
+                    holder["init"] = None
+    return spec
+
+
 def gen_spec(rng):
     x = rng.random()
-    return Gen(rng, "valid" if x < 0.6 else ("onefault" if x < 0.9 else "wild")).make()
+    flavour = "valid" if x < 0.6 else ("onefault" if x < 0.9 else "wild")
+    spec = Gen(rng, flavour).make()
+    if flavour != "wild":
+        spec = repair(spec, 0 if flavour == "valid" else 1, rng)
+    return spec
 
 
 def edge_specs(rng):
@@ -1097,6 +1172,67 @@ def load_corpus():
 # ---------------------------------------------------------------------------
 def public(res):
     return {k: v for k, v in res.items() if k != "b"}
+
+
+def child_call(fn, *args):
+    """Run fn(*args) in a forked child and return its (picklable) result.  Every
+    MagicRobot() leaks an NT multi-subscriber (ntcore complains after 512 of
+    them) and opens an NT server; a fresh process per batch keeps the parent
+    clean and the C++ chatter of the children off our stderr."""
+    import pickle
+    import traceback
+    r, w = os.pipe()
+    sys.stdout.flush()
+    pid = os.fork()
+    if pid == 0:
+        try:
+            os.close(r)
+            dn = os.open(os.devnull, os.O_WRONLY)
+            os.dup2(dn, 2)
+            os.dup2(dn, 1)
+            try:
+                out = ("ok", fn(*args))
+            except BaseException as e:
+                out = ("err", "%r\n%s" % (e, traceback.format_exc()))
+            with os.fdopen(w, "wb") as f:
+                pickle.dump(out, f)
+        finally:
+            os._exit(0)
+    os.close(w)
+    with os.fdopen(r, "rb") as f:
+        data = f.read()
+    os.waitpid(pid, 0)
+    kind, val = pickle.loads(data)
+    if kind == "err":
+        raise RuntimeError(val)
+    return val
+
+
+def run_batch(specs, with_oracle=False):
+    """[(public result | {'harness_error': ..}, violations)] for a batch of specs"""
+    logging.disable(logging.CRITICAL)
+    out = []
+    for spec in specs:
+        try:
+            res = public(run_robot(spec))
+        except Exception as e:
+            out.append(({"harness_error": "%r on %s" % (e, describe(spec))}, []))
+            continue
+        vs = []
+        if with_oracle and "hints_error" not in res:
+            try:
+                vs = oracle(spec, res)
+            except Exception as e:
+                res["oracle_error"] = repr(e)
+        out.append((res, vs))
+    return out
+
+
+def run_many(specs, with_oracle=False, chunk=400):
+    out = []
+    for i in range(0, len(specs), chunk):
+        out += child_call(run_batch, specs[i:i + chunk], with_oracle)
+    return out
 
 
 def violation(spec, res, v):
@@ -1188,32 +1324,51 @@ def shrink(spec, fp):
     return spec
 
 
+def shrink_report(spec, fp):
+    """(runs in a child) smallest robot definition with the same kind of violation"""
+    logging.disable(logging.CRITICAL)
+    small = shrink(spec, fp)
+    res, vs = try_oracle(small)
+    if res is None or not any(v[0] == fp for v in vs):
+        small = spec
+        res, vs = try_oracle(spec)
+    return small, public(res), vs
+
+
+def concrete(spec, res, vs):
+    fp = vs[0][0]
+    try:
+        small, res2, vs2 = child_call(shrink_report, spec, fp)
+        v2 = [x for x in vs2 if x[0] == fp]
+        if v2:
+            return [violation(small, res2, v2[0])]
+    except Exception:
+        pass
+    return [violation(spec, res, vs[0])]
+
+
 def run(ctx):
     import time
+    import magicbot  # noqa: F401  (imported before forking; no robot is ever created in this process)
     ctx.assumptions.append(
         "C08: CPython isinstance (the subclass table), typing.get_type_hints (merged hints and their order), hasattr/dir "
         "and dict order are inputs of the model; components have an execute() method and annotated __init__ parameters "
         "only; user code in __init__/setup does not touch the injection machinery; autonomous modes are handed to "
         "_create_components() as objects (the selector's loading is C14)")
     ctx.prove()
-    logging.disable(logging.CRITICAL)
     n_random = 30000 if ctx.tier == "thorough" else 2000
     specs = load_corpus()
     ncorpus = len(specs)
     specs += edge_specs(ctx.rng)
     while len(specs) < ncorpus + n_random:
         specs.append(gen_spec(ctx.rng))
+    outs = run_many(specs)
     cases, terms = [], []
     nontrivial = set()
     harness_errors = []
-    for spec in specs:
-        try:
-            res = run_robot(spec)
-        except Exception as e:          # a spec the harness cannot build is a harness bug, not evidence
-            harness_errors.append("%r on %s" % (e, describe(spec)))
-            continue
-        if "hints_error" in res:
-            harness_errors.append(res["hints_error"])
+    for spec, (res, _) in zip(specs, outs):
+        if "harness_error" in res or "hints_error" in res:
+            harness_errors.append(res.get("harness_error") or res.get("hints_error"))
             continue
         an = analyse(spec, res["inherited"])
         ctx.count("outcome=%s" % ["started", "MagicInjectError", "TypeError", "other"][res["outcome"]])
@@ -1238,21 +1393,25 @@ def run(ctx):
         terms.append(emit_case(spec, res))
     ctx.obligation("harness:every generated robot definition could be built", not harness_errors, "; ".join(harness_errors[:3]))
     per = 250
-    items = [("cases_%d" % k, cases_file(sh)) for k, sh in enumerate(shards(terms, per))]
+    sh = shards(terms, per)
+    items = [("cases_%d" % k, cases_file(x)) for k, x in enumerate(sh)]
     results = ctx.coq_files_parallel(items)
     bad_total = []
     for k, (name, _) in enumerate(items):
         rc, out = results[name]
         lists = parse_eval_lists(out) if rc == 0 else []
         ok = rc == 0 and len(lists) == 1 and lists[0] == []
-        ctx.obligation("corr:%s (Inject.Model.startup/observe == _create_components on %d robots)" % (name, len(shards(terms, per)[k])),
-                       ok, out[-1500:])
+        detail = out[-1500:]
         if rc == 0 and lists and lists[0]:
             bad_total += [k * per + i for i in lists[0]]
+            i0 = k * per + lists[0][0]
+            detail = "first disagreeing robot: %s; implementation: %s" % (
+                json.dumps(cases[i0][0]), json.dumps({x: cases[i0][1].get(x) for x in ("outcome", "exc", "ctor", "setups", "final")}))
         elif rc != 0:
             bad_total += list(range(k * per, min(len(cases), (k + 1) * per)))
+        ctx.obligation("corr:%s (Inject.Model startup/observe == _create_components, %d robots)" % (name, len(sh[k])), ok, detail)
     samples = []
-    for spec, res in cases[ncorpus + 10:ncorpus + 13]:
+    for spec, res in cases[ncorpus + 100:ncorpus + 103]:
         samples.append({"robot": describe(spec), "outcome": res["outcome"], "ctor": res.get("ctor"), "final": res.get("final")})
     ctx.coverage.update({
         "evaluations": len(cases), "traces_validated_against_impl": len(cases),
@@ -1266,47 +1425,40 @@ def run(ctx):
 
     def search():
         t0 = time.time()
-        for i in bad_total[:200]:
+        for i in bad_total[:300]:
             spec, res = cases[i]
             vs = oracle(spec, res)
             if vs:
-                small = shrink(spec, vs[0][0])
-                res2, vs2 = try_oracle(small)
-                v2 = [x for x in vs2 if x[0] == vs[0][0]] or vs
-                return [violation(small if res2 else spec, res2 or res, v2[0])]
+                return concrete(spec, res, vs)
         for spec, res in cases:
             vs = oracle(spec, res)
             if vs:
-                small = shrink(spec, vs[0][0])
-                res2, vs2 = try_oracle(small)
-                v2 = [x for x in vs2 if x[0] == vs[0][0]] or vs
-                return [violation(small if res2 else spec, res2 or res, v2[0])]
+                return concrete(spec, res, vs)
         n = 0
         while time.time() - t0 < 240 and n < 10 * n_random:
-            spec = gen_spec(ctx.rng)
-            n += 1
-            res, vs = try_oracle(spec)
-            if vs:
-                small = shrink(spec, vs[0][0])
-                res2, vs2 = try_oracle(small)
-                v2 = [x for x in vs2 if x[0] == vs[0][0]] or vs
-                return [violation(small if res2 else spec, res2 or res, v2[0])]
+            batch = [gen_spec(ctx.rng) for _ in range(400)]
+            n += len(batch)
+            for spec, (res, vs) in zip(batch, run_many(batch, True)):
+                if vs:
+                    return concrete(spec, res, vs)
         return []
 
     return ctx.finish(search=search)
 
 
 def replay(ctx, obj):
-    logging.disable(logging.CRITICAL)
     if obj.get("kind") == "input" and "spec" in obj:
+        import magicbot  # noqa: F401
         spec = obj["spec"]
-        res = run_robot(spec)
+        res, vs = child_call(run_batch, [spec], True)[0]
         print("robot: %s" % describe(spec))
+        if "harness_error" in res:
+            print("cannot build: %s" % res["harness_error"])
+            return 1
         print("outcome: %s %s" % (["started", "MagicInjectError", "TypeError", "other exception"][res["outcome"]], res.get("exc", "")))
         if res["outcome"] == 0:
             print("constructor kwargs: %r" % res["ctor"])
             print("attributes after startup: %r" % res["final"])
-        vs = oracle(spec, res)
         for fp, what in vs:
             print("property fails [%s]: %s" % (fp, what))
         if vs:
